@@ -117,7 +117,7 @@ Section C07.
     → rec_prop o w (t, i) =
     ([EPutValues t (commit_merge (o_order o) i (c_values C) (view C) (rb_change P));
     EPutCfg t (commit_entry overlay v_empty i P C);
-    EPutProp (t, i) (P <| p_commit := Some Done |>)], RDone).
+    EPutProp (t, i) (P <| p_commit := Some Done |>)], requeue_next t P).
   Proof. exact (@commit_effects_merge V Ch Req D candidate candidate_rb rollback_of overlay commit_merge payload record_applied touched restore doc_ok v_empty d_empty ch_empty). Qed.
 
   (* cut at any store-call boundary, then re-run to the end: the world of ONE uninterrupted commit *)
@@ -138,7 +138,7 @@ Section C07.
     → c_committed C = p_prev P
     → p_prev P ≠ i
     → let w2 := step w (LRec (CtlProp (t, i)) 2 o) in
-    rec_prop o' w2 (t, i) = ([EPutProp (t, i) (P <| p_commit := Some Done |>)], RDone)
+    rec_prop o' w2 (t, i) = ([EPutProp (t, i) (P <| p_commit := Some Done |>)], requeue_next t P)
     ∧ (∀ k' : nat,
     (1 <= k')%nat
     → step w2 (LRec (CtlProp (t, i)) k' o') = step w (LRec (CtlProp (t, i)) 3 o)).
@@ -156,7 +156,7 @@ Section C07.
     ∧ rec_prop o' w1 (t, i) =
     ([EPutValues t (commit_merge (o_order o') i v1 (view C1) (rb_change P));
     EPutCfg t (commit_entry overlay v_empty i P C1);
-    EPutProp (t, i) (P <| p_commit := Some Done |>)], RDone).
+    EPutProp (t, i) (P <| p_commit := Some Done |>)], requeue_next t P).
   Proof. exact (@commit_resume_after_values V Ch Req D candidate candidate_rb rollback_of overlay commit_merge payload record_applied touched restore resync_payload doc_ok dev_apply stamp v_empty d_empty ch_empty). Qed.
 
   (* ... harmless when the merge is stable under repetition *)
@@ -198,7 +198,7 @@ Section C07.
     → dev_answer w t (c_term C) o = COk
     → let w3 := step w (LRec (CtlProp (t, i)) 3 o) in
     rec_prop o' w3 (t, i) =
-    ([EPutProp (t, i) (P <| p_apply := Some Done |> <| p_term := c_aterm C |>)], RDone)
+    ([EPutProp (t, i) (P <| p_apply := Some Done |> <| p_term := c_aterm C |>)], requeue_next t P)
     ∧ (c_aterm C <= c_term C
     → ∀ k' : nat,
     (1 <= k')%nat
@@ -243,7 +243,7 @@ Section C07.
     EPutCfg t
     (Ck <| c_applied := i |> <| c_inline := view Ck |> <| c_ainline :=
     v_empty |>)]
-    else [], if p_next P =? 0 then RDone else RRequeueProp (t, p_next P))
+    else [], requeue_next t P)
     ∧ (∃ C' : config,
     cfgs (step wk (LRec (CtlProp (t, i)) 2 o')) !! t = Some C'
     ∧ c_applied C' = i
@@ -262,7 +262,7 @@ Section C07.
     then
     [EPutAValues t (restore (c_avalues C) (aview C));
     EPutCfg t (C <| c_applied := i |> <| c_inline := view C |> <| c_ainline := v_empty |>)]
-    else [], if p_next P =? 0 then RDone else RRequeueProp (t, p_next P)).
+    else [], requeue_next t P).
   Proof. exact (@failed_pass V Ch Req D candidate candidate_rb rollback_of overlay commit_merge payload record_applied touched restore doc_ok v_empty d_empty ch_empty). Qed.
 
   (* abort, first branch *)
@@ -275,7 +275,8 @@ Section C07.
     ([EPutAValues t (restore (c_avalues C) (aview C));
     EPutCfg t
     (C <| c_committed := i |> <| c_applied := i |> <| c_inline := view C |> <| c_ainline :=
-    v_empty |>); EPutProp (t, i) (P <| p_abort := Some Done |>)], RDone).
+    v_empty |>); EPutProp (t, i) (P <| p_abort := Some Done |>)], 
+    requeue_next t P).
   Proof. exact (@abort_both V Ch Req D candidate candidate_rb rollback_of overlay commit_merge payload record_applied touched restore doc_ok v_empty d_empty ch_empty). Qed.
 
   (* abort, second branch *)
@@ -300,7 +301,7 @@ Section C07.
     → rec_prop o w (t, i) =
     ([EPutAValues t (restore (c_avalues C) (aview C));
     EPutCfg t (C <| c_applied := i |> <| c_inline := view C |> <| c_ainline := v_empty |>);
-    EPutProp (t, i) (P <| p_abort := Some Done |>)], RDone).
+    EPutProp (t, i) (P <| p_abort := Some Done |>)], requeue_next t P).
   Proof. exact (@abort_applied_only V Ch Req D candidate candidate_rb rollback_of overlay commit_merge payload record_applied touched restore doc_ok v_empty d_empty ch_empty). Qed.
 
   (* abort, fourth alternative (both indexes passed) *)
@@ -311,7 +312,7 @@ Section C07.
     → c_applied C ≠ p_prev P
     → i <= c_committed C
     → i <= c_applied C
-    → rec_prop o w (t, i) = ([EPutProp (t, i) (P <| p_abort := Some Done |>)], RDone).
+    → rec_prop o w (t, i) = ([EPutProp (t, i) (P <| p_abort := Some Done |>)], requeue_next t P).
   Proof. exact (@abort_passed V Ch Req D candidate candidate_rb rollback_of overlay commit_merge payload record_applied touched restore doc_ok v_empty d_empty ch_empty). Qed.
 
   (* abort, otherwise nothing *)
@@ -319,7 +320,9 @@ Section C07.
     ∀ (o : oracle) (w : world) (t i : N) (P : prop) (C : config),
     aborting w t i P C
     → c_committed C ≠ p_prev P
-    → c_applied C ≠ p_prev P → c_committed C < i ∨ c_applied C < i → rec_prop o w (t, i) = ([], RDone).
+    → c_applied C ≠ p_prev P
+    → c_committed C < i ∨ c_applied C < i
+    → rec_prop o w (t, i) = ([], if p_prev P =? 0 then RDone else RRequeueProp (t, p_prev P)).
   Proof. exact (@abort_idle V Ch Req D candidate candidate_rb rollback_of overlay commit_merge payload record_applied touched restore doc_ok v_empty d_empty ch_empty). Qed.
 
   (* stopped after the re-store of the applied values: indexes unmoved, same branch again *)
@@ -338,7 +341,7 @@ Section C07.
     → c_applied C = p_prev P
     → p_prev P ≠ i
     → let w2 := step w (LRec (CtlProp (t, i)) 2 o) in
-    rec_prop o' w2 (t, i) = ([EPutProp (t, i) (P <| p_abort := Some Done |>)], RDone)
+    rec_prop o' w2 (t, i) = ([EPutProp (t, i) (P <| p_abort := Some Done |>)], requeue_next t P)
     ∧ (∀ k' : nat,
     (1 <= k')%nat
     → step w2 (LRec (CtlProp (t, i)) k' o') = step w (LRec (CtlProp (t, i)) 3 o)).
@@ -353,7 +356,8 @@ Section C07.
     → i <= c_committed C
     → p_prev P ≠ i
     → let w2 := step w (LRec (CtlProp (t, i)) 2 o) in
-    rec_prop o' w2 (t, i) = ([EPutProp (t, i) (P <| p_abort := Some Done |>)], RDone)
+    rec_prop o' w2 (t, i) =
+    ([EPutProp (t, i) (P <| p_abort := Some Done |>)], requeue_next t P)
     ∧ (∀ k' : nat,
     (1 <= k')%nat
     → step w2 (LRec (CtlProp (t, i)) k' o') = step w (LRec (CtlProp (t, i)) 3 o)).
@@ -368,7 +372,7 @@ Section C07.
     → c_applied C < i
     → p_prev P ≠ i
     → let w2 := step w (LRec (CtlProp (t, i)) 2 o) in
-    rec_prop o' w2 (t, i) = ([], RDone)
+    rec_prop o' w2 (t, i) = ([], if p_prev P =? 0 then RDone else RRequeueProp (t, p_prev P))
     ∧ (∃ C2 : config, aborting w2 t i P C2 ∧ c_committed C2 = i ∧ c_applied C2 = c_applied C).
   Proof. exact (@abort_committed_resume V Ch Req D candidate candidate_rb rollback_of overlay commit_merge payload record_applied touched restore resync_payload doc_ok dev_apply stamp v_empty d_empty ch_empty). Qed.
 
